@@ -1853,6 +1853,9 @@ func (data *Data) DropRetentionPolicy(database, name string) error {
 		return nil
 	}
 	delete(di.RetentionPolicies, name)
+	if di.DefaultRetentionPolicy == name {
+		di.DefaultRetentionPolicy = ""
+	}
 
 	return nil
 }
